@@ -1734,6 +1734,10 @@ def sym_step(tu, st, n, on_call=None, env=None):
         if src is not None:
             st.copy_struct(p, src)
             return
+        c_ = inner_call(tu, ks[2])
+        if c_ is not None and ('v', 'tmp:' + c_['id'], 'tmp') in st.copies:
+            st.copy_struct(p, ('v', 'tmp:' + c_['id'], 'tmp'))
+            return
         cm = call_member_path(tu, ks[2])
         if cm is not None and ('v', 'tmp:' + cm[0]['id'], 'tmp') in st.copies or \
                 (cm is not None and any(k_[:3] == ('v', 'tmp:' + cm[0]['id'], 'tmp') for k_ in st.vals)):
@@ -1809,7 +1813,7 @@ def sym_paths(tu, g, start, stops, st0, on_call=None, limit=256):
                     if handled:
                         nxt.append(st1)
                         continue
-                    inl = inline_void_call(tu, st1, n, on_call)
+                    inl = inline_void_call(tu, st1, n, on_call, want_struct=True)
                     if inl is not None:
                         nxt += inl
                         if len(nxt) > limit:
@@ -1859,7 +1863,7 @@ def clobber_call_args(tu, st, n):
             st.clobber(tgt, n['id'])
 
 
-def inline_void_call(tu, st, n, on_call):
+def inline_void_call(tu, st, n, on_call, want_struct=False):
     """Replay a call of a loop-free void helper of the scheduler at the call site: by-value parameters are copied,
     reference parameters alias the caller's objects; one resulting store per path of the helper.  None if the callee is
     not such a helper."""
@@ -1867,8 +1871,16 @@ def inline_void_call(tu, st, n, on_call):
     if cf is None or cf.get('virt') or cf['dep'] or tu.cfg(cf) is None or st.depth >= 3:
         return None
     q = cf['q']
-    if not (q.startswith('enki::TaskScheduler::') or q.startswith('(anonymous namespace)::')) or not cf.get('fty', '').startswith('void'):
+    if not (q.startswith('enki::TaskScheduler::') or q.startswith('(anonymous namespace)::')):
         return None
+    returns_struct = False
+    if not cf.get('fty', '').startswith('void'):
+        # a helper that returns a record by value (`return local;`): the result is left in the call's temporary
+        rt = (cf.get('fty', '') or '').split('(')[0].strip()
+        if not want_struct or irange(rt) is not None or rt.endswith(('*', '&')) or rt == 'bool' or \
+                not q.startswith('(anonymous namespace)::'):
+            return None
+        returns_struct = True
     g2 = tu.cfg(cf)
     if g2.back_edges():
         return None
@@ -1896,8 +1908,19 @@ def inline_void_call(tu, st, n, on_call):
         outs = sym_paths(tu, g2, g2.entry, set(), st2, on_call)
     except ValueError:
         return None
+    ret_src = None
+    if returns_struct:
+        rets = [x for b, i, x in g2.stmts() if x.get('kind') == 'ReturnStmt' and tu.kids(x)]
+        srcs = {struct_source(tu, tu.kids(x)[0]) for x in rets}
+        if len(srcs) != 1 or None in srcs:
+            return None
+        ret_src = next(iter(srcs))
+        if ret_src[0] != 'v' or len(ret_src) != 3:
+            return None
     res = []
     for stop, st3 in outs:
+        if ret_src is not None:
+            st3.copy_struct(('v', 'tmp:' + n['id'], 'tmp'), st3.norm(ret_src))
         for p_ in cf['params']:
             st3.alias.pop(param_path(p_), None)
         st3.depth = st.depth
@@ -2286,8 +2309,11 @@ def check_internal(ctx, tu, chains, summaries=None):
         cargs = tu.kids(ce)
         cnt_i = fun_i = tramp_i = None
         tramp_fn = None
+        # the count may be handed over through a local that is initialised once (`const int setSize = static_cast<int>(n)`)
+        ldefs = {p_: e_ for p_, e_ in local_defs(tu, [f]).items() if irange(tu.sd(e_).get('ct')) is not None}
+        env_l = make_env(tu, ldefs)
         for ai, a_ in enumerate(cargs):
-            if irange(tu.sd(a_).get('ct')) is not None and lin(tu, a_) == Lin.atom(('p', ppath)):
+            if irange(tu.sd(a_).get('ct')) is not None and lin(tu, a_, env_l) == Lin.atom(('p', ppath)):
                 cnt_i = ai
             elif obj_path(tu, a_) == fpath:
                 fun_i = ai
@@ -2296,7 +2322,7 @@ def check_internal(ctx, tu, chains, summaries=None):
             elif function_ref(tu, a_) is not None:
                 tramp_i, tramp_fn = ai, function_ref(tu, a_)   # a function that knows the functor's type (trampoline)
         if cnt_i is None:
-            ll = [lin(tu, a_) for a_ in cargs if irange(tu.sd(a_).get('ct')) is not None]
+            ll = [lin(tu, a_, env_l) for a_ in cargs if irange(tu.sd(a_).get('ct')) is not None]
             if ll and (ll[0] - Lin.atom(('p', ppath))).is_const():
                 bad.append(('task-size', 'the task set is constructed with size `%r` instead of the count' % ll[0], ce))
             else:
@@ -2394,6 +2420,12 @@ def check_internal(ctx, tu, chains, summaries=None):
         ch_here = None
         if cnt_i is not None and ctor.get('params') and cnt_i < len(ctor['params']):
             lf, ch = cast_chain(tu, cargs[cnt_i])
+            hops = 0
+            while lf is not None and access_path(tu, lf) in ldefs and hops < 4:
+                # conversions written at the initialiser of the local come first
+                lf, ch0 = cast_chain(tu, ldefs[access_path(tu, lf)])
+                ch = ch0 + (ch[1:] if ch and ch0 and ch[0] == ch0[-1] else ch)
+                hops += 1
             pt = clean_type(ctor['params'][cnt_i]['ct'])
             if not ch or ch[-1] != pt:
                 ch = ch + [pt]
@@ -4361,6 +4393,23 @@ def check_partition_divisors(ctx, tu):
         return
     n_inst = 0
     TH = ('this', 'm_NumThreads')
+
+    def writes_member(wg, blocks, path):
+        """the member is assigned in these blocks - directly, or by a callee that receives it by non-const reference"""
+        if any(p_ == path for p_, k_, n_ in find_writes(tu, wg, blocks)):
+            return True
+        for b_, i_, n_ in wg.stmts():
+            if b_.id not in blocks or n_.get('kind') not in CALLS:
+                continue
+            cf_ = tu.callee_fn(n_)
+            if cf_ is None or not cf_.get('params'):
+                continue
+            s_, obj_, args_ = tu.call_parts(n_)
+            for p_, a_ in zip(cf_['params'], args_):
+                pt_ = (p_.get('ct') or '').strip()
+                if pt_.endswith('&') and not pt_.startswith('const ') and access_path(tu, a_) == path:
+                    return True
+        return False
     for X, divnode in sorted(members.items()):
         inst = '[INTERNAL] TaskScheduler::%s' % X
         writers = []
@@ -4368,7 +4417,7 @@ def check_partition_divisors(ctx, tu):
             wg = tu.cfg(w)
             if w['dep'] or wg is None or w.get('ctor') or w.get('rec') != 'enki::TaskScheduler':
                 continue
-            if any(p_ == ('this', X) for p_, k_, n_ in find_writes(tu, wg, set(wg.blocks))):
+            if writes_member(wg, set(wg.blocks), ('this', X)):
                 writers.append(w)
         n_inst += 1
         if len(writers) != 1:
@@ -4376,7 +4425,7 @@ def check_partition_divisors(ctx, tu):
             continue
         w = writers[0]
         wg = tu.cfg(w)
-        if any(p_ == TH for p_, k_, n_ in find_writes(tu, wg, set(wg.blocks))):
+        if writes_member(wg, set(wg.blocks), TH):
             ctx.undecided(R, inst, '`%s` also changes m_NumThreads' % w['q'], tu.fn_loc(w))
             continue
         heads = sorted({t for s_, t in wg.back_edges()})
@@ -4384,7 +4433,7 @@ def check_partition_divisors(ctx, tu):
         if len(heads) == 1:
             H = wg.blocks[heads[0]]
             L = natural_loop(wg, H.id)
-            if any(p_ == ('this', X) for p_, k_, n_ in find_writes(tu, wg, L)) or len(H.succ) != 2 or H.succ[1] is None:
+            if writes_member(wg, L, ('this', X)) or len(H.succ) != 2 or H.succ[1] is None:
                 ctx.undecided(R, inst, '`%s` is assigned inside a loop of %s' % (X, w['q']), tu.fn_loc(w))
                 continue
             start = H.succ[1]
